@@ -92,6 +92,19 @@ def handleBest (j : Json) : R Json := do
                ("ties", b ties), ("scope", b true),
                ("nontrivial", b (match m with | some l => l.length < hits.length | none => true))]
 
+def featOfJson (j : Json) : R Feat := do
+  return ⟨← intF j "start", ← intF j "len", ← boolF j "source", ← dictOfJson (← fld j "quals"),
+          ← listOf asInt (← fld j "notes")⟩
+
+def handleWrite (j : Json) : R Json := do
+  let groups ← listOf (listOf featOfJson) (← fld j "groups")
+  let out := writeRecord groups
+  let wf := groups.flatten.all fun f =>
+    let keys := f.quals.map (·.1)
+    !keys.contains noteKey && keys.eraseDups.length == keys.length
+  return jObj [("model", jArr (out.map fun e => jArr [toJson e.1.1, toJson e.1.2.1, toJson e.1.2.2, dictToJson e.2])),
+               ("scope", b wf), ("nontrivial", b (groups.flatten.length > 1))]
+
 def handle (j : Json) : R Json := do
   match ← strF j "k" with
   | "names" => handleNames j
@@ -99,6 +112,7 @@ def handle (j : Json) : R Json := do
   | "annotate" => handleAnnotate j
   | "uniq" => handleUniq j
   | "best" => handleBest j
+  | "write" => handleWrite j
   | k => throw s!"C17: unknown kind {k}"
 
 end ASV.Drv.C17
